@@ -65,6 +65,9 @@ def run(tier="quick", seed=0):
     for mode in ("Diffuse", "Target"):
         for st in pipeline.STAGE_POINTS:
             jobs.append({"kind": "stage", "spec": _spec_of(mode, True, True, thrown), "seed": seed + 2, "fault": ("stage", st)})
+            # the same failure with intermediate writing disabled: nothing may appear on disk
+            jobs.append({"kind": "stage-nowrite", "spec": _spec_of(mode, True, True, thrown), "seed": seed + 2, "write": False,
+                         "fault": ("stage", st)})
         for v in variants:
             for write in (True, False):
                 jobs.append({"kind": "clean", "spec": _spec_of(mode, True, True, thrown, v), "seed": seed + 3, "write": write})
